@@ -59,6 +59,7 @@ type FuncContract struct {
 	Replay   map[string]string // label -> template spec
 	File     string
 	Line     int
+	Recvs    map[string]*Clause // channel text -> assumed invariant of received values (trusted)
 	Uses     map[string]bool // when non-nil: only the postconditions of these callees are assumed (others: results and write sets only)
 	MaxPaths int             // live symbolic paths kept apart before joining (default 4)
 	Bounded  string          // non-empty: obligations of this function are bounded stand-ins (text = bound)
@@ -119,7 +120,7 @@ var propsRe = regexp.MustCompile(`^@([A-Z0-9,]+)\s+`)
 
 var clauseKeywords = map[string]bool{
 	"func": true, "iface": true, "fieldfunc": true, "spec": true, "lemma": true, "axiom": true, "modset": true, "requires": true, "ensures": true, "modifies": true, "loop": true,
-	"invariant": true, "decreases": true, "trusted": true, "props": true, "ghost": true, "at": true, "after": true,
+	"invariant": true, "decreases": true, "trusted": true, "props": true, "ghost": true, "at": true, "after": true, "recv": true,
 	"pure": true, "nopanic": true, "paths": true, "forget": true, "uses": true, "replay": true, "bounded": true, "skip": true, "note": true,
 }
 
@@ -217,6 +218,9 @@ func (cs *ContractSet) ParseContractFile(pkgPath, filename string, f *ast.File, 
 				}
 				ms.Targets = append(ms.Targets, ex)
 			}
+			if _, dup := cs.ModSets[pkgPath+"::"+ms.Name]; dup {
+				return fmt.Errorf("%s:%d: duplicate modset %s", filename, l.line, ms.Name)
+			}
 			cs.ModSets[pkgPath+"::"+ms.Name] = ms
 			cur, curLoop = nil, nil
 		case "axiom":
@@ -233,6 +237,9 @@ func (cs *ContractSet) ParseContractFile(pkgPath, filename string, f *ast.File, 
 				return fmt.Errorf("%s:%d: %v", filename, l.line, err)
 			}
 			sf.PkgPath, sf.File, sf.Line = pkgPath, filename, l.line
+			if _, dup := cs.Specs[pkgPath+"::"+sf.Name]; dup {
+				return fmt.Errorf("%s:%d: duplicate spec function %s", filename, l.line, sf.Name)
+			}
 			cs.Specs[pkgPath+"::"+sf.Name] = sf
 			cur, curLoop = nil, nil
 		case "lemma":
@@ -351,6 +358,20 @@ func (cs *ContractSet) ParseContractFile(pkgPath, filename string, f *ast.File, 
 				for _, k := range strings.Fields(rest) {
 					cur.Skip[k] = true
 				}
+			case "recv":
+				// recv <channel expression>: assume <expr over `value`>  — a (trusted) channel invariant used at receives
+				k := strings.Index(rest, ": assume ")
+				if k < 0 {
+					return fmt.Errorf("%s:%d: bad recv clause", filename, l.line)
+				}
+				cl, err := mk(strings.TrimSpace(rest[k+len(": assume "):]))
+				if err != nil {
+					return fmt.Errorf("%s:%d: %v", filename, l.line, err)
+				}
+				if cur.Recvs == nil {
+					cur.Recvs = map[string]*Clause{}
+				}
+				cur.Recvs[strings.TrimSpace(rest[:k])] = cl
 			case "note":
 				cur.Notes = append(cur.Notes, rest)
 			case "replay":
@@ -467,7 +488,7 @@ func parseSpecFunc(rest string) (*SpecFunc, error) {
 	return sf, nil
 }
 
-var atRe = regexp.MustCompile(`^call(?:\s+(\d+))?\s+([A-Za-z0-9_.$]+)\s*:\s*(assert|ghost|assume)\s*(.*)$`)
+var atRe = regexp.MustCompile(`^call(?:\s+(\d+))?\s+([A-Za-z0-9_.$]+)\s*:\s*(assert|ghost|assume|gadd)\s*(.*)$`)
 
 func parseAt(rest string, mk func(string) (*Clause, error)) (*AtClause, error) {
 	m := atRe.FindStringSubmatch(rest)
@@ -485,6 +506,18 @@ func parseAt(rest string, mk func(string) (*Clause, error)) (*AtClause, error) {
 			return nil, err
 		}
 		at.Clause = cl
+	case "gadd":
+		// gadd <set> <expr>: add the value to a ghost set
+		parts := strings.SplitN(strings.TrimSpace(m[4]), " ", 2)
+		if len(parts) != 2 {
+			return nil, fmt.Errorf("bad gadd %q", m[4])
+		}
+		cl, err := mk(strings.TrimSpace(parts[1]))
+		if err != nil {
+			return nil, err
+		}
+		at.Clause = cl
+		at.Ghost = parts[0]
 	case "ghost":
 		at.Ghost = strings.TrimSpace(m[4])
 		// ghost name = expr | name++
